@@ -9,6 +9,11 @@ Model: lean/JoblibModel/MemoryCache.lean; theorems: lean/JoblibProofs/C06.lean; 
   arguments in another insertion order, other values for ignored parameters, same or fresh process — does not execute the body
   while the entry file is still there; `check_call_in_cache` == "the next identical call does not execute"; a call the plain
   callable accepts is not rejected by the wrapper.
+
+The model has two versions (`reset old|fixed`): the pinned tree, where MemorizedFunc.call stores without checking the function
+code (F30: `cf.call(x)` on a fresh directory, then `cf(x)` executes again; `check_call_in_cache` says False while the next call is
+served), and the tree with fixes/F30-forced-call-checks-func-code.diff. The harness asks for the version the tree under test shows
+on a two-call probe, so the correspondence holds on both and the oracle reports F30 on the pinned one.
 """
 
 from .. import core, memcache  # noqa: F401
@@ -20,8 +25,13 @@ REQUIRED_THEOREMS = [
     "C06.hit_after_call",
     "C06.hit_after_equivalent_call_partial",
     "C06.check_iff_hit",
+    "C06.reachable_entriesCoded",
+    "C06.hit_after_forced_call",
     "C06.wrapper_accepts",
     "C06.wrapper_accepts_nonfunction",
+    "C06.old_forced_call_reexecuted_counterexample",
+    "C06.old_check_false_but_hit_counterexample",
+    "C06.fixed_on_the_F30_witnesses",
 ]
 TRUSTED_EXTRA = c02.TRUSTED_EXTRA + [
     "a fresh process is the identity on this model (the key is a function of the call, the store is on disk); the harness runs such "
